@@ -54,11 +54,22 @@ Qed.
 Theorem C15_satisfies_expression s A e : parse T0 s = Err e -> satisfies T0 s A = Err e /\ located s e.
 Proof. intros H. split; [unfold satisfies; rewrite H; reflexivity|apply C15_parse; assumption]. Qed.
 
+(* an error about an allowed entry is the parse error of the first invalid entry, located in THAT entry's text *)
+Theorem C15_satisfies_allowed e t A er : parse T0 e = Ok t -> A <> [] -> satisfies T0 e A = Err er ->
+  er = ECompoundAllowed \/ exists A1 a A2, A = A1 ++ a :: A2 /\ Forall (fun x => validb T0 x = true) A1 /\ parse T0 a = Err er /\ located a er.
+Proof.
+  intros HP HA HS. unfold satisfies in HS. rewrite HP in HS. destruct A as [|a0 A']; [contradiction|].
+  destruct (strings_to_nodes T0 (a0 :: A')) as [N|er'| |] eqn:ES; try discriminate.
+  - unfold sort_and_dedup in HS. destruct N as [|n0 [|n1 N']]; try discriminate. destruct (keyed (n0 :: n1 :: N')); discriminate.
+  - inversion HS; subst er'. destruct (strings_to_nodes_error T0 (a0 :: A') er ES) as [->|[A1 [a [A2 [EA [Pa HF]]]]]]; [left; reflexivity|].
+    right. exists A1, a, A2. repeat split; try assumption. apply C15_parse. assumption.
+Qed.
+
 Example C15_example :
   parse T0 (s2l "Apache-2.0-or-later AND FOO") = Err (EUnknownLicense (s2l "FOO") 24)
   /\ parse T0 (s2l "(MIT-or-later OR GPL-2.0+) AND LicenseRef-") = Err (EExpectedId 42).
 Proof. vm_compute. split; reflexivity. Qed.
 
 (* axioms the property theorems of this file depend on (one traversal for all of them) *)
-Definition C15_theorems := (@C15_parse, @C15_extract, @C15_satisfies_expression).
+Definition C15_theorems := (@C15_parse, @C15_extract, @C15_satisfies_expression, @C15_satisfies_allowed).
 Redirect "assumptions/C15" Print Assumptions C15_theorems.
